@@ -338,8 +338,26 @@ Record case := mk_case {
   c_panicked : bool;
 }.
 
+(** All contiguous sub-ranges of a path: the tails on which the harness asks the glob oracle. *)
+Fixpoint prefixes_of (p : npath) : list npath :=
+  [] :: match p with [] => [] | c :: t => map (cons c) (prefixes_of t) end.
+Fixpoint suffixes_of (p : npath) : list npath :=
+  p :: match p with [] => [] | _ :: t => suffixes_of t end.
+Definition subranges (p : npath) : list npath := flat_map prefixes_of (suffixes_of p).
+
+(** The oracle assumption [gm_prefix_closed], checked on the recorded verdicts: a prefix-mode
+    match on a tail persists on every asked extension of that tail. *)
+Definition closed_on (tbl : list (bool * N * npath)) (univ : list npath) : bool :=
+  forallb (fun e =>
+    negb (fst (fst e))
+    || forallb (fun t' => match strip_prefix N.eqb (snd e) t' with
+                          | Some _ => gm_table tbl true (snd (fst e)) t'
+                          | None => true
+                          end) univ) tbl.
+
 (** The property on the implementation's answers: every recorded [visit] answer is
-    consistent with every recorded [matches] answer below that directory. *)
+    consistent with every recorded [matches] answer below that directory; and the recorded
+    prefix-mode glob verdicts are closed under extension on the asked tails. *)
 Definition okb (c : case) : bool :=
   negb (c_panicked c) &&
   forallb (fun dv =>
@@ -347,7 +365,8 @@ Definition okb (c : case) : bool :=
       match strip_prefix N.eqb (fst dv) (fst pb) with
       | Some q => visit_allows N.eqb (snd dv) q (snd pb)
       | None => true
-      end) (c_matches c)) (c_visits c).
+      end) (c_matches c)) (c_visits c)
+  && closed_on (c_globs c) (flat_map (fun pb => subranges (fst pb)) (c_matches c)).
 
 Definition check_case (c : case) : N :=
   let m := build N.eqb (c_expr c) in
